@@ -781,11 +781,31 @@ class Interp(Engine):
         """a specification clause as a GOAL: if evaluating it contradicts the path (a typed heap read in it is false for the value
         actually stored) the clause does not hold as written -- the goal is False, never a silently ended path"""
         n = len(self.st.pc)
+        self.solver.push()
+        saved_facts = getattr(self, "goal_facts", None)
+        self.goal_facts = []
         try:
-            return self.spec_bool(expr, env)
+            g = self.spec_bool(expr, env)
+            if self.goal_facts:
+                g = z3.And([g] + self.goal_facts)
         except PathEnd:
+            self.solver.pop()
             del self.st.pc[n:]
             return z3.BoolVal(False)
+        finally:
+            self.goal_facts = saved_facts
+        new = self.st.pc[n:]
+        if new and not self.check_sat():
+            # the (conditional) typing facts assumed while reading the heap in this clause are inconsistent with the path: the
+            # clause talks about an object of the declared shape and the code stored something else -- not a vacuous pass
+            self.solver.pop()
+            del self.st.pc[n:]
+            return z3.BoolVal(False)
+        self.solver.pop()
+        for c_ in new:
+            if not has_quantifier(c_):
+                self.solver.add(c_)
+        return g
 
     def spec_bool(self, expr, env=None):
         """evaluate a spec expression (ast) to a z3 Bool in the current state"""
